@@ -612,6 +612,27 @@ fn w_combined_rhs(ctx: &mut Ctx) {
                 cone.scaled_unit_shift(&mut e, -sm, PrimalOrDualCone::PrimalCone);
                 Some((0..n).map(|i| ll[i] + m * corr[i] + e[i]).collect())
             }
+            // slack-step offset W'(lambda \ ds) of ONE cone, on a fresh object that sees nothing but its own slices
+            fn off<C: Cone<f64> + SymmetricCone<f64>>(cone: &mut C, s: &[f64], z: &[f64], ds: &[f64]) -> Option<Vec<f64>> {
+                let n = s.len();
+                if !cone.update_scaling(s, z, 1.0, ScalingStrategy::PrimalDual) {
+                    return None;
+                }
+                let (mut out, mut work) = (vec![0.0; n], vec![0.0; n]);
+                cone.Δs_from_Δz_offset(&mut out, ds, &mut work, z);
+                Some(out)
+            }
+            let mut expect_off: Vec<f64> = vec![];
+            for (t, r) in types.iter().zip(vc::cone_ranges(&types)) {
+                let part = match t {
+                    ConeT::NonnegativeConeT(d) => off(&mut NonnegativeCone::<f64>::new(*d), &s[r.clone()], &z[r.clone()], &ds[r.clone()]),
+                    ConeT::SecondOrderConeT(d) => off(&mut SecondOrderCone::<f64>::new(*d), &s[r.clone()], &z[r.clone()], &ds[r.clone()]),
+                    #[cfg(feature = "sdp")]
+                    ConeT::PSDTriangleConeT(d) => off(&mut PSDTriangleCone::<f64>::new(*d), &s[r.clone()], &z[r.clone()], &ds[r.clone()]),
+                    _ => None,
+                };
+                expect_off.extend(part?);
+            }
             let mut expect: Vec<f64> = vec![];
             for (t, r) in types.iter().zip(vc::cone_ranges(&types)) {
                 let part = match t {
@@ -642,14 +663,23 @@ fn w_combined_rhs(ctx: &mut Ctx) {
             let mut rhs = DefaultVariables::<f64>::new(nx, nc);
             rhs.affine_step_rhs(&residuals, &variables, &cones);
             rhs.combined_step_rhs(&residuals, &variables, &mut cones, &mut step, sigma, mu, m);
-            Some((expect, rhs.s.clone(), rhs.κ))
+            // the same offset through the cone list (what the KKT right-hand side is built from)
+            let (mut got_off, mut work_all) = (vec![0.0; nc], vec![0.0; nc]);
+            cones.Δs_from_Δz_offset(&mut got_off, &ds, &mut work_all, &z);
+            Some((expect, rhs.s.clone(), rhs.κ, expect_off, got_off))
         }));
         ctx.eval(1);
         let detail = |extra: serde_json::Value| json!({"cones": vkit::problem::cones_json(&types), "s": s, "z": z, "dz": dz, "ds": ds, "sigma": sigma, "mu": mu, "M": m, "check": extra});
         match out {
             Err(msg) => ctx.violation("panic", "panic:combined_rhs", wl, case, detail(json!({"panic": msg}))),
             Ok(None) => ctx.bump("combined_rhs_scaling_refused"),
-            Ok(Some((expect, got, got_kappa))) => {
+            Ok(Some((expect, got, got_kappa, expect_off, got_off))) => {
+                let sc_off = expect_off.iter().fold(1e-300f64, |a, v| a.max(v.abs()));
+                let worst_off = expect_off.iter().zip(&got_off).fold(0.0f64, |a, (e, g)| a.max((e - g).abs())) / sc_off;
+                ctx.observe_max("cone_list_slack_offset_rel_err", worst_off);
+                if !(worst_off <= 1e-12) {
+                    ctx.violation("cone_list_slack_offset_ne_blockwise", "cone_list_slack_offset_ne_blockwise", wl, case, detail(json!({"relative_error": worst_off, "got": got_off, "want": expect_off})));
+                }
                 ctx.bump(if m == 1.0 { "combined_rhs_full_correction" } else { "combined_rhs_reduced_correction" });
                 let scale = expect.iter().fold(1.0f64, |a, v| a.max(v.abs()));
                 let worst = expect.iter().zip(&got).fold(0.0f64, |a, (e, g)| a.max((e - g).abs())) / scale;
